@@ -112,6 +112,17 @@ CHECKS["C11"] = dict(
     technique="Lean 4 decide over translator-regenerated field table + whole-layer round-trip correspondence",
 )
 
+CHECKS["C02"] = dict(
+    category="proof",
+    text="Lean 4 theorems (partial, with proved negations): for EVERY group of joined rows, SUM(DISTINCT h·M+v) − SUM(DISTINCT h·M) equals the sum of the measure over the distinct own rows and COUNT(DISTINCT pk) their number "
+         "(injective hash and 2|v|<M as explicit hypotheses; integer lemma shows the multiplier separates pairs); the reference SUM over one representative per own row equals the symmetric expression; decision rule of _has_fanout_joins; "
+         "a join onto a unique key never multiplies rows; declaring the relationship on either side gives the same edges; unsupported aggregations are rejected. Negations: NULL measure term (F2), plain SUM under fan-out (F3). "
+         "Tie: SQLGenerator vs the Lean multi-model generator genJoin (structural + behavioural) on generated forests; real rows vs reference semantics; directed search after a break.",
+    design_ref="DESIGN.md §4 C02",
+    note="Partial: the end-to-end statement (plan rows = reference rows for all data) is proved per aggregate over an arbitrary group, not composed through the join evaluator; MIN/MAX/COUNT DISTINCT and multi-hop/junction paths are covered by correspondence + spec oracle. Known findings F2/F3/F26.",
+    technique="Lean 4 proof (dedup-by-key representatives, rational arithmetic, integer separation lemma) + structural/behavioural correspondence + distinct-row oracle",
+)
+
 NOT_APPLICABLE = {}
 
 
